@@ -59,6 +59,7 @@ type inputRec struct {
 }
 
 type Exec struct {
+	procs int64 // runtime.GOMAXPROCS as set by the program (0 = default)
 	P       *Program
 	tb      *TB
 	sol     *Solver
@@ -255,7 +256,7 @@ func (x *Exec) visitInstr(fr *frame, instr ssa.Instruction) continuation {
 		panic(targetPanic{v: v, msg: x.panicText(v)})
 
 	case *ssa.Send:
-		panic(unsupported{"chan send"})
+		x.chanSend(x.get(fr, instr.Chan), x.get(fr, instr.X))
 
 	case *ssa.Store:
 		x.store(x.get(fr, instr.Addr).(*value), x.get(fr, instr.Val))
@@ -287,7 +288,7 @@ func (x *Exec) visitInstr(fr *frame, instr ssa.Instruction) continuation {
 		x.spawn(fr, instr, fn, args)
 
 	case *ssa.MakeChan:
-		panic(unsupported{"make chan"})
+		fr.env[instr] = x.makeChan(instr.Type(), x.concretize(x.get(fr, instr.Size).(*Term), "make chan size"))
 
 	case *ssa.Alloc:
 		var addr *value
